@@ -17,16 +17,17 @@ SPEC = {
                     'the byte stream is taken at the PlatformSpecificFPuts seam and judged by a one-pass reader written from the TeamCity service-message rules (message syntax, |-escapes), which hands every message to a nesting/value checker',
                     'vsnprintf: the directive model of engine/rt/env.c with decimal digits produced by comparison (numbers 0..99; anything larger is an engine error)',
                     'requested-size red zones (ll2c --heapcheck) are off: SimpleString memory safety is property C13',
-                    'KF_C20_1 / KF_C20_2 exclude the two findings reported for this property (test file name unescaped inside "TEST failed (...)"; a group with an empty name is never finished); harness functions finding_testfile_unescaped / finding_empty_group demonstrate them'],
+                    'open known finding KF-C20-2 (a group with an empty name gets a suite start but no finish) is excluded by -DKF_C20_2 and re-demonstrated by finding_empty_group on every run'],
     'groups': [{
         'name': 'tc', 'wrapper': 'w20.cpp', 'harness': 'h20.c', 'config': {'heapcheck': False},
-        'defines': ['-DKF_C20_1', '-DKF_C20_2'],
+        'defines': [],   # KF-C20-1 fixed in /repo; the open KF-C20-2 is added by run.py from known_findings.json
         'obligations':
             [ob('harness_escape_roundtrip', unwind=12, timeout=300, unwindset=[], bounds='printEscaped on any text of <= 4 bytes over the full byte range')] +
-            [ob('harness_stream_1_%d' % k, solver='kissat', bounds='run of 1 test that %s; ' % K[k] + F) for k in range(3)] +
+            [ob('harness_stream_1_%d' % k, bounds='run of 1 test that %s; ' % K[k] + F, **({'solver': 'kissat'} if k == 1 else {})) for k in range(3)] +
+            [ob('finding_empty_group', expect='fail', bounds='one passing test in a group named "" (open known finding KF-C20-2)')] +
             [ob('harness_stream_2_00', tier='quick', bounds='run of 2 passing tests (same or different group decided by the symbolic names); ' + F)] +
             [ob('harness_stream_2_%d%d' % (a, b), tier='thorough', timeout=3600, solver='kissat',
-                bounds='run of 2 tests (same or different group decided by the symbolic names): the first %s, the second %s; ' % (K[a], K[b]) + F) for a in range(3) for b in range(3)] +
+                bounds='run of 2 tests (same or different group decided by the symbolic names): the first %s, the second %s; ' % (K[a], K[b]) + F) for a in range(3) for b in range(3) if (a, b) != (0, 0)] +
             [ob('harness_stream_3_%s' % p, tier='thorough', timeout=3600, solver='kissat',
                 bounds='run of 3 tests (grouping decided by the symbolic names), pass/fail/ignored pattern %s (first test = last digit); ' % p + F) for p in ('000', '120')],
     }],
